@@ -41,6 +41,8 @@ CONFIGS = {
     "asan256": dict(cmake=[], cflags=SAN_GATE),
     "asan256r": dict(cmake=[], cflags=SAN_RECOVER),
     "asan255": dict(cmake=["-DFP_PRIME=255"], cflags=SAN_GATE),
+    # extended twisted Edwards coordinates as the default system (ED_ADD == EXTND): C17
+    "asan255e": dict(cmake=["-DFP_PRIME=255", "-DED_METHD=EXTND;LWNAF;COMBS;INTER"], cflags=SAN_GATE),
     "asan381": dict(cmake=["-DFP_PRIME=381"], cflags=SAN_GATE),
     "asan256w8": dict(cmake=["-DWSIZE=8", "-DARCH="], cflags=SAN_GATE),
     "asan256k": dict(cmake=["-DBN_KARAT=2", "-DFP_KARAT=1",
